@@ -10,10 +10,10 @@ ANCHORS = ["pyoma2.functions.gen:HC_conj", "pyoma2.functions.gen:HC_damp", "pyom
            "pyoma2.functions.gen:applymask", "pyoma2.algorithms.ssi:SSIdat.run", "pyoma2.algorithms.ssi:SSIdat_MS.run",
            "pyoma2.algorithms.plscf:pLSCF.run", "pyoma2.algorithms.plscf:pLSCF_MS.run"]
 ALGS = ["SSIcov", "SSIdat", "SSIcov_MS", "SSIdat_MS", "pLSCF", "pLSCF_MS"]
-REQUIRED_MONITORS = [f"sound+complete@{a}.run" for a in ALGS] + [f"one-NaN-pattern@{a}.run" for a in ALGS] + ["conj-injection@run", "HC_conj(function)", "sound+complete@SSIcov.run(calc_unc)"]
+REQUIRED_MONITORS = [f"sound+complete@{a}.run" for a in ALGS] + [f"one-NaN-pattern@{a}.run" for a in ALGS] + ["conj-injection@run", "HC_conj(function)", "HC_phi_comp(function)", "sound+complete@SSIcov.run(calc_unc)"]
 CRIT = ["conj", "xi", "mpc", "mpd", "cov"]
 ALL_STATES = [f"fails {c} alone" for c in CRIT] + ["fails several", "passes all", "conj=False keeps orphan", "ordmin > 0"]
-REQUIRED_STATES = ["pole tables with more than 4096 slots", "criteria given as numpy scalars / 0-d arrays / integers", "same instance re-run with relaxed criteria", "ordmin > 0", "fails xi alone", "fails mpc alone", "fails mpd alone", "fails cov alone", "fails conj alone", "passes all", "conj=False keeps orphan",
+REQUIRED_STATES = ["two-component shapes (MPC = 1 up to rounding)", "two-channel records", "pole tables with more than 4096 slots", "criteria given as numpy scalars / 0-d arrays / integers", "same instance re-run with relaxed criteria", "ordmin > 0", "fails xi alone", "fails mpc alone", "fails mpd alone", "fails cov alone", "fails conj alone", "passes all", "conj=False keeps orphan",
                    "relaxed mpd_lim in [0.5, 1.2] with mpc_lim = 0", "mpd_lim = 0", "mpc_lim = 1", "result tables re-examined after plotting with freqlim", "same instance run twice with the same criteria",
                    "limits a relative 1e-6 beside the indicators of existing poles"]
 RULE = ("noisy responses of systems with complex non-proportional shapes, high model orders (many spurious, negatively damped and real poles); a first "
@@ -46,6 +46,7 @@ def _cases(tier, seed):
     out += [{"cls": "calc_unc", "k": k} for k in range(4 if tier == "quick" else 40)]
     out += [{"cls": "conj_injection", "alg": ["SSIcov", "pLSCF", "SSIdat", "SSIcov_MS", "pLSCF_MS", "SSIdat_MS"][k % 6], "k": k} for k in range(ninj)]
     out += [{"cls": "hc_conj_function", "k": k} for k in range(nfn)]
+    out += [{"cls": "hc_phi_comp_function", "k": k} for k in range(20 if tier == "quick" else 300)]
     return out
 
 
@@ -187,8 +188,10 @@ def judge_run(ctx, name, unf, result, hc, has_lambds, tagsuffix=""):
 
 
 # ------------------------------------------------------------------------------- drivers
-def make_data(rng, ms):
+def make_data(rng, ms, two=False):
     nch = int(rng.integers(4, 6))
+    if two and not ms:
+        nch = 2  # two sensors: the real and imaginary parts of every shape are two points, always on a line (MPC = 1 up to rounding, either side)
     fs = 100.0
     data, *_ = gen.sim_response(rng, nch, int(rng.integers(4000, 6000)), fs, m=3, xi_rng=(0.01, 0.04), noise=0.2, complex_modes=True, minsep=0.06)
     if ms:
@@ -289,7 +292,10 @@ NEUTRALISH = dict(conj=False, xi_max=0.1, mpc_lim=0.7, mpd_lim=0.3, cov_max=0.2)
 
 def run_adaptive(ctx, case, rng, calc_unc=False):
     alg = "SSIcov" if calc_unc else case["alg"]
-    fs, data, ref, datasets = make_data(rng, alg.endswith("_MS"))
+    two = (not calc_unc) and (not alg.endswith("_MS")) and case["k"] % 7 == 3 and not case.get("large")
+    fs, data, ref, datasets = make_data(rng, alg.endswith("_MS"), two)
+    if two:
+        ctx.state("two-channel records")
     extra = dict(ordmax=(8 if alg.startswith("pLSCF") else (10 if calc_unc else int(rng.integers(16, 26)))))
     # the criteria hold "at every model order": also below ordmin, which only limits the stability labels
     extra["ordmin"] = int(rng.choice([0, 0, 3, 6]))
@@ -300,7 +306,9 @@ def run_adaptive(ctx, case, rng, calc_unc=False):
         ctx.state("pole tables with more than 4096 slots")
     if calc_unc:
         extra.update(calc_unc=True, nb=int(rng.choice([10, 20])), br=6, method="cov_mm")
-    elif alg in ("SSIcov", "SSIdat") and rng.random() < 0.5 and not case.get("large"):
+    if two and not alg.startswith("pLSCF"):
+        extra.update(ordmax=14, br=10)
+    elif alg in ("SSIcov", "SSIdat") and not calc_unc and rng.random() < 0.5 and not case.get("large"):
         extra["ref_ind"] = [0, 2]
     if alg.startswith("pLSCF"):
         extra["method_SD"] = "per" if rng.random() < 0.6 else "cor"
@@ -463,6 +471,41 @@ def run_injection(ctx, case, rng):
         ctx.nontrivial(("inject", alg, conj, len(cells), case["k"]))
 
 
+def run_phi_comp_fn(ctx, rng, case):
+    """gen.HC_phi_comp on tables of shapes with 2..6 components: the two masks are exactly 'MPD <= limit' and 'MPC >= limit' wherever the
+    indicator is not within 1e-9 of its limit - in particular for two-component shapes, whose MPC is 1 up to rounding on either side."""
+    from pyoma2.functions import gen as G_
+
+    nch = [2, 2, 3, 5, 6][case["k"] % 5]
+    nr, no = int(rng.integers(3, 40)), int(rng.integers(2, 12))
+    Phi = rng.standard_normal((nr, no, nch)) + 1j * rng.standard_normal((nr, no, nch)) * float(rng.choice([1.0, 0.2, 1e-3]))
+    Phi = Phi * np.exp(1j * rng.uniform(0, 2 * np.pi, (nr, no, 1)))
+    Phi[rng.random((nr, no)) < 0.2] = np.nan
+    mpc_lim = [0.0, 0.5, 0.9, 1.0][int(rng.integers(0, 4))] if rng.random() < 0.7 else float(rng.uniform(0, 1))
+    mpd_lim = [0.3, 1.0, float(np.pi / 2)][int(rng.integers(0, 3))] if rng.random() < 0.7 else float(rng.uniform(0, np.pi / 2))
+    keep = Phi.copy()
+    m_mpd, m_mpc = G_.HC_phi_comp(Phi, mpc_lim, mpd_lim)
+    ctx.ev("HC_phi_comp(function)")
+    ctx.check(np.array_equal(Phi, keep, equal_nan=True), "phi_comp_fn:input_modified", "HC_phi_comp modified the shape table it was given")
+    if not ctx.check(np.shape(m_mpd) == (nr, no) and np.shape(m_mpc) == (nr, no), "phi_comp_fn:shape", lambda: f"mask shapes {np.shape(m_mpd)} {np.shape(m_mpc)} for a table {(nr, no)}"):
+        return
+    bad = []
+    for i in range(nr):
+        for j in range(no):
+            if np.isnan(Phi[i, j, 0]):
+                continue
+            c_, d_ = own_mpc(Phi[i, j]), own_mpd(Phi[i, j])
+            if abs(c_ - mpc_lim) > 1e-9 and bool(m_mpc[i, j]) != (c_ >= mpc_lim):
+                bad.append(("mpc", i, j, c_))
+            if abs(d_ - mpd_lim) > 1e-7 and bool(m_mpd[i, j]) != (d_ <= mpd_lim):
+                bad.append(("mpd", i, j, d_))
+    if nch == 2:
+        ctx.state("two-component shapes (MPC = 1 up to rounding)")
+    ctx.check(not bad, f"phi_comp_fn:mask_is_not_the_comparison:{bad[0][0] if bad else ''}",
+              lambda: f"HC_phi_comp({nch} components, mpc_lim={mpc_lim}, mpd_lim={mpd_lim:.4f}): {len(bad)} mask entries are not the comparison of the indicator with its limit, e.g. {bad[0]}")
+    ctx.nontrivial(("phi_comp_fn", nch, nr, no, mpc_lim, round(mpd_lim, 6)))
+
+
 def run_conj_fn(ctx, rng):
     from pyoma2.functions import gen as G_
 
@@ -518,5 +561,7 @@ def run_case(ctx, case):
         run_adaptive(ctx, case, rng, calc_unc=True)
     elif case["cls"] == "conj_injection":
         run_injection(ctx, case, rng)
+    elif case["cls"] == "hc_phi_comp_function":
+        run_phi_comp_fn(ctx, rng, case)
     else:
         run_conj_fn(ctx, rng)
